@@ -418,6 +418,6 @@ std::vector<std::vector<std::string>> read_cases(std::istream& in) {
 }
 
 int run_heap(std::istream& in, std::ostream& out, int, char**) {
-  for (auto const& c : read_cases(in)) out << run_heap_case(c);
+  for (auto const& c : read_cases(in)) { out << run_heap_case(c); out.flush(); }
   return 0;
 }
